@@ -289,7 +289,8 @@ class BaseReader:
                                 dtype=self.dtype, shape=_out_shape)
 
             default_chunks = (-1,) + ("auto",) * len(self.sample_shape)
-            z = z.rechunk(kwargs.get("chunks", default_chunks))
+            if n > 0:  # "auto" chunks of an empty array divide by zero
+                z = z.rechunk(kwargs.get("chunks", default_chunks))
         else:
             z = self._read_array(offset, n, **kwargs)
 
